@@ -1,6 +1,6 @@
 (* C01 -- every response reaches exactly the request that caused it, byte-exact. *)
 From EC Require Import Base.Prelude Base.Bytes Pdu.Frame Pdu.Slots Pdu.View Pdu.Hist Pdu.SlotsProofs
-  Pdu.Client Pdu.ClientProofs Pdu.ViewProofs Pdu.RouteProofs.
+  Pdu.Client Pdu.ClientProofs Pdu.ViewProofs Pdu.RouteProofs Pdu.Wake Pdu.WakeProofs Gen.WakeOrder.
 Local Open Scope N_scope.
 
 (* Routing, byte-exact.  In a state where the request in slot i awaits its response (Sent) with
@@ -71,3 +71,37 @@ Theorem c01_view_stable_refuted :
   seen = [1; 2; 3; 4] /\ firstn 4 (skipn 10 (fbuf (sfr (get s2 0)))) = [170; 187; 204; 221].
 Proof. vm_compute. split; reflexivity. Qed.
 Print Assumptions c01_view_stable_refuted.
+
+(* The waiting task is woken: no lost wake-up.  The task's poll (register the waker; test for
+   RxDone; sleep) against the receive side (store RxDone; take the waker and wake it), one shared
+   access per step, ALL interleavings, the task polled again whenever it is scheduled
+   (Pdu/Wake.v: [reach], [stuck] = response delivered, task asleep, nobody will poll it).
+   With the order the code has no reachable state is stuck ... *)
+Theorem c01_no_lost_wakeup : forall s, reach true true s -> stuck s = false.
+Proof. exact no_lost_wakeup. Qed.
+Print Assumptions c01_no_lost_wakeup.
+
+Theorem c01_response_reaches_task : forall s, reach true true s ->
+  w_r s = RDone -> w_p s = PIdle -> w_ready s = true \/ w_sched s = true.
+Proof. exact response_reaches_task. Qed.
+Print Assumptions c01_response_reaches_task.
+
+(* ... the order is the one read off /repo's sources on this run (tools/src2coq.py: position of
+   replace_waker vs. the RxDone test in ReceiveFrameFut::poll, of the RxDone store vs. wake() in
+   mark_received) ... *)
+Theorem c01_wake_order_in_code : register_before_check = true /\ done_before_wake = true.
+Proof. exact code_order. Qed.
+Print Assumptions c01_wake_order_in_code.
+
+Theorem c01_no_lost_wakeup_in_code : forall s, reach register_before_check done_before_wake s -> stuck s = false.
+Proof. exact no_lost_wakeup_in_code. Qed.
+Print Assumptions c01_no_lost_wakeup_in_code.
+
+(* ... and either order reversed does lose the wake-up (the argument needs both) *)
+Theorem c01_check_before_register_loses : exists s, reach false true s /\ stuck s = true.
+Proof. exact check_before_register_loses. Qed.
+Print Assumptions c01_check_before_register_loses.
+
+Theorem c01_wake_before_done_loses : exists s, reach true false s /\ stuck s = true.
+Proof. exact wake_before_done_loses. Qed.
+Print Assumptions c01_wake_before_done_loses.
